@@ -18,6 +18,10 @@
   unsupported float, a misplaced end event), so the statement has four parts; the plain
   "success ⇔ no Write failed" holds for every stream the same visitor accepts over a healthy
   writer, in particular for every supported document from any state.
+
+  JSON PARSER (namespace `SF.PropsJsonP.C16`): with a visitor failing from its k-th event, for
+  every byte string and chunking: at most k events and no visitor error, or the visitor's error
+  with event k the last one delivered.
 -/
 import SF.Cbor.Enc
 import SF.Proofs.CborFault
@@ -25,6 +29,7 @@ import SF.Proofs.CborNoPanic
 import SF.Proofs.CborFailAt
 import SF.Proofs.UbjEncTop
 import SF.Proofs.JsonEncTop
+import SF.Proofs.JsonRefineTop
 namespace SF.Props.C16
 open SF SF.Cbor SF.Cbor.Enc
 
@@ -286,3 +291,23 @@ theorem json_encoder_success_iff_no_write_failed (xs : List XEv) (s : Enc) (h : 
   SF.Props.JsonEnc.json_encoder_success_iff_no_write_failed xs s h w' hw hok
 
 end SF.PropsJson.C16
+
+/-! ## JSON parser refinement (SF/Json/Parse.lean; proofs SF/Proofs/JsonRefine*.lean) -/
+
+namespace SF.PropsJsonP.C16
+open SF SF.Json SF.Json.Parse SF.Json.Float SF.Json.ParseP SF.Json.Grammar
+open SF.Json.RefineTop
+
+/-- C16 for the JSON parser, `Parse`, EVERY byte string and fault index -/
+theorem json_parser_returns_visitor_error (k : Nat) (b : Bytes) :
+    ((parse (init (some k)) b).2 ≠ some .visitor ∧ (parse (init (some k)) b).1.evs.length ≤ k) ∨
+    ((parse (init (some k)) b).2 = some .visitor ∧ (parse (init (some k)) b).1.evs.length = k + 1) :=
+  SF.Json.RefineTop.json_parser_returns_visitor_error k b
+
+/-- … and `Write*` + end of input (`ParseReader`), EVERY chunking -/
+theorem json_writeChunks_returns_visitor_error (k : Nat) (cs : List Bytes) :
+    ((writeChunks (init (some k)) cs).2 ≠ some .visitor ∧ (writeChunks (init (some k)) cs).1.evs.length ≤ k) ∨
+    ((writeChunks (init (some k)) cs).2 = some .visitor ∧ (writeChunks (init (some k)) cs).1.evs.length = k + 1) :=
+  SF.Json.RefineTop.json_writeChunks_returns_visitor_error k cs
+
+end SF.PropsJsonP.C16
